@@ -2611,6 +2611,14 @@ XPathProcessorImpl::QName()
         consumeExpected(XalanUnicode::charColon);
     }
 
+    // The local part must be an NCName ("$", "$ + 1", "$1" are not variable references)...
+    if (XalanQName::isValidNCName(m_token) == false)
+    {
+        error(
+            XalanMessages::NotValidNCName_1Param,
+            m_token);
+    }
+
     m_expression->pushCurrentTokenOnOpCodeMap();
 
     nextToken();
